@@ -141,7 +141,12 @@ impl Dn {
 			}
 		}
 		for (t, v) in &self.0 {
-			dn.push(t.real(), v.real()?);
+			// (text goes in the ways text does: as a DnValue, as &str, as String)
+			match v {
+				DnV::Utf8(s) if s.len() % 3 == 1 => dn.push(t.real(), s.as_str()),
+				DnV::Utf8(s) if s.len() % 3 == 2 => dn.push(t.real(), s.clone()),
+				_ => dn.push(t.real(), v.real()?),
+			}
 		}
 		if use_scratch {
 			dn.remove(scratch);
